@@ -108,7 +108,8 @@ func (dev *RoachDevice) samplePacket() error {
 	dev.nextS = FrameIndex(header.Nsamp) + FrameIndex(header.Sampnum)
 	dev.nchan = int(header.Nchan)
 	dev.unwrap = make([]*PhaseUnwrapper, dev.nchan)
-	biaslevel := dev.unwrapOpts.calcBiasLevel()
+	// calcBiasLevel assumes 2^16 is exactly one ϕ0; ROACH data have 2^roachFractionBits per ϕ0.
+	biaslevel := dev.unwrapOpts.calcBiasLevel() >> (16 - roachFractionBits)
 	pulseSign := dev.unwrapOpts.PulseSign
 	invertData := false // not implemented for ROACH at this time
 	for i := range dev.unwrap {
